@@ -164,6 +164,29 @@ def check_pair(a, b):
                             "%s compare equal but hash to %d and %d" % (what, ha, hb))
         if len({va, vb}) != 1:
             raise Violation("set-keeps-equal-versions-apart", "%s: set has %d elements" % (what, len({va, vb})))
+    # The same clauses for a version object that *became* b by component assignment after it had
+    # been compared and hashed as a: ordering and hash are functions of the current value.
+    vm = Version(a)
+    hash(vm), vm == vb, vm < vb
+    try:
+        if vb.epoch is not None:
+            vm.epoch = vb.epoch
+        vm.upstream_version = vb.upstream_version
+        vm.debian_revision = vb.debian_revision
+        if vb.epoch is None:
+            vm.epoch = None
+    except ValueError:
+        vm = None       # an intermediate combination was not a valid version: nothing to observe
+    if vm is not None and str(vm) == b:
+        if not (vm == vb) or vm < vb or vm > vb or hash(vm) != hash(vb) or len({vm, vb}) != 1:
+            raise Violation("assigned-object-differs-from-fresh",
+                            "Version(%r) turned into %r by component assignment: ==,<,> with Version(%r) "
+                            "give %s,%s,%s; hashes %d and %d" % (a, b, b, vm == vb, vm < vb, vm > vb,
+                                                                hash(vm), hash(vb)))
+        if bool(vm < va) != (r > 0) or bool(vm > va) != (r < 0):
+            raise Violation("assigned-object-differs-from-fresh",
+                            "Version(%r) turned into %r by component assignment orders against "
+                            "Version(%r) as <:%s >:%s, dpkg says %d" % (a, b, a, vm < va, vm > va, -r))
     return r, lib
 
 
